@@ -612,6 +612,8 @@ func (s *session) receiver(d int, done chan<- int) {
 var (
 	budgetOverride time.Duration // set by the fuzz worker
 	graceScale     = 1.0
+	maxTries       = 3
+	drainWait      = 2 * time.Second
 )
 
 func budgetFor(total int) time.Duration {
@@ -712,7 +714,7 @@ loop:
 	if res.hang != "" {
 		s.abort()
 		// Give the goroutines a moment to unwind (a spinning one leaks).
-		t := time.NewTimer(2 * time.Second)
+		t := time.NewTimer(drainWait)
 	drain:
 		for len(pending) > 0 {
 			select {
@@ -767,7 +769,7 @@ func run(cs Case) ev.Outcome {
 	}
 	var at attempt
 	hangs := 0
-	for try := 0; try < 3; try++ {
+	for try := 0; try < maxTries; try++ {
 		at = runOnce(cs, try)
 		if at.hang == "" {
 			break
@@ -778,7 +780,7 @@ func run(cs Case) ev.Outcome {
 		return ev.Fail(at.fail.sig, "%s", at.fail.msg)
 	}
 	if at.hang != "" {
-		return ev.Fail(at.hang, "reproduced in 3 of 3 attempts: %s", at.hangMsg)
+		return ev.Fail(at.hang, "reproduced in %d of %d attempts: %s", hangs, maxTries, at.hangMsg)
 	}
 
 	mods := [2]wmodel{modelOf(cs.AB.Ops), modelOf(cs.BA.Ops)}
@@ -1009,6 +1011,20 @@ func TestReplay(t *testing.T) { ev.Replay(t, ev.Get(prop)) }
 //	whole 1 MiB read buffer) or through 1..3-byte fragments around the mark.
 func TestEdges(t *testing.T) {
 	col := ev.Get(prop)
+	// After 12 failing cases the rest of the enumeration is skipped (on a
+	// broken tree every further case costs stall-detection time and adds
+	// nothing).
+	failed := 0
+	runEdge := func(cs Case) ev.Outcome {
+		if failed >= 12 {
+			return ev.Outcome{Skip: "enumeration-cut-after-12-violations"}
+		}
+		out := run(cs)
+		if out.Err != "" && !col.IsKnown(out.Sig) {
+			failed++
+		}
+		return out
+	}
 	ev.Each(t, col, "edges", func(yield func(Case) bool) {
 		fragSets := [][]int{nil, {1}, {2}, {3}, {65536}, {65535, 1}}
 		type tail struct {
@@ -1096,5 +1112,6 @@ func TestEdges(t *testing.T) {
 				}
 			}
 		}
-	}, run)
+	}, runEdge)
+	ev.Register("edges", run)
 }
